@@ -248,7 +248,7 @@ func tryDefaultPair(e *engine, f, g defField, x ctxB) (ms []mismatch, loads int6
 			}
 			if diff := snapshotDiff(first, s); len(diff) > 0 {
 				ms = append(ms, mismatch{sig: fmt.Sprintf("default-forms-differ-in-pair: %s + %s at %s", f.name, g.name, keyShape(diff[0])),
-					what: fmt.Sprintf("%s=%s together with %s=%s differs from both omitted: %s\n  context: %s", f.name, ff[i].name, g.name, fg[k].name, strings.Join(diff, "; "), x),
+					what:   fmt.Sprintf("%s=%s together with %s=%s differs from both omitted: %s\n  context: %s", f.name, ff[i].name, g.name, fg[k].name, strings.Join(diff, "; "), x),
 					replay: map[string]any{"part": "B", "field": f.name, "field2": g.name, "method": x.method, "multiUser": x.multi, "legacy": x.legacy, "perturbed": x.pert}})
 				return
 			}
@@ -315,9 +315,9 @@ func partB(e *engine) {
 	sort.Strings(names)
 	c.Part("B:defaults", map[string]any{
 		"fields_with_documented_default": names, "contexts": len(contextsB()),
-		"forms":                          "omitted / explicitly empty / explicit documented default",
-		"field_x_context_comparisons":    triples, "field_pair_comparisons": pairs, "loads": loads,
-		"mismatches": len(all),
+		"forms":                       "omitted / explicitly empty / explicit documented default",
+		"field_x_context_comparisons": triples, "field_pair_comparisons": pairs, "loads": loads,
+		"mismatches":  len(all),
 		"compared_on": "effective values read through overlay_static/{service,ss2022,router}/c18_export.go: reject policy function, padding policy function and behaviour, filter sizes, NAT timeout, batch sizes, channel capacity, initial-payload wait, PMTUD modes, client network, probe settings, router client types",
 	})
 	c.Sample(map[string]any{"part": "B", "field": "udpListener.natTimeout", "forms": []string{"omitted", `"0s"`, `"5m0s"`}, "effective_key": "server[s0].udpsession.listener[0].natTimeoutNs", "documented": "300000000000"})
